@@ -277,6 +277,10 @@ func main() {
 		cmdGoLean(os.Args[2:])
 	case "entproto":
 		cmdEntProto(os.Args[2:])
+	case "corefault":
+		cmdCoreFault(os.Args[2:])
+	case "cronconc":
+		cmdCronConc(os.Args[2:])
 	case "hookconc":
 		cmdHookConc(os.Args[2:])
 	case "pure":
